@@ -718,7 +718,7 @@ def effective_tags(feat, rule, outline, scen):
 # script (what callbacks do) and configuration
 # ---------------------------------------------------------------------------
 OUTCOMES = ["ok", "assert", "exc", "notimpl", "kbi", "skip"]
-EXC_CLASSES = ["Exception", "ValueError", "RuntimeError", "KeyError", "ZeroDivisionError"]
+EXC_CLASSES = ["Exception", "ValueError", "RuntimeError", "KeyError", "ZeroDivisionError", "TimeoutError"]
 
 
 def gen_message(rng, hostile):
@@ -807,7 +807,7 @@ def gen_world(seed, overrides=None, profile=None):
     if dims.get("async_steps"):
         for d in lib["defs"]:
             if rng.random() < 0.4:
-                d["async"] = {"timeout": rng.choice([None, None, 1.0, 5.0])}
+                d["async"] = {"timeout": rng.choice([None, None, 1.0, 5.0]), "actx": rng.random() < 0.3}
     pool = list(TAG_POOL) if rng.random() < 0.7 else list(PLAIN_TAGS)
     if not dims.get("allow_wip_tag", True):
         pool = [t for t in pool if t != "wip"]
@@ -856,6 +856,11 @@ def gen_actions(rng, world, dims, where):
         if rng.random() < 0.3:
             acts.append({"a": "log", "logger": rng.choice(["", "foo", "foo.bar", "baz"]),
                          "level": rng.choice(["DEBUG", "INFO", "WARNING", "ERROR"])})
+        if where == "step" and rng.random() < dims.get("p_log_burst", 0.0):
+            acts.append({"a": "log_burst", "n": 1005})
+    if dims.get("midrun_skips") and where in ("step", "after_scenario") and rng.random() < 0.06:
+        acts.append({"a": "skip_container", "what": rng.choice(["feature", "feature", "rule"]),
+                     "reason": rng.random() < 0.5})
     if dims.get("status_reads") and rng.random() < 0.3:
         acts.append({"a": "read_status"})       # user code looks at feature/rule/scenario.status mid-run
     if dims["ctx"] and rng.random() < 0.5:
@@ -892,12 +897,15 @@ def gen_script(rng, world, dims):
             for dd in world["steplib"]["defs"]:
                 if dd["id"] == st.get("def") and dd.get("async"):
                     adef = dd
+            if adef is not None and adef["async"].get("timeout") and ent["out"]["kind"] == "exc" and rng.random() < 0.5:
+                ent["out"]["cls"] = "TimeoutError"      # the step's OWN TimeoutError is an exception, not behave's timeout
             if adef is not None and rng.random() < 0.7:
                 ent["async"] = {"sleep": rng.choice([0.01, 0.5, 2.0, 30.0, 3600.0]) if rng.random() < 0.8 else 0,
                                 "spawn": rng.choice([0, 0, 0.2, 10.0])}
             if dims["nested"] and rng.random() < 0.15:
                 ent["acts"].append({"a": "execute_steps", "n": rng.randint(1, 2),
-                                    "bad": rng.random() < 0.25})
+                                    "bad": rng.random() < 0.25,
+                                    "fail": rng.choice([None, None, None, "assert", "exc"])})
             if ent["acts"] or ent["out"]["kind"] != "ok" or ent.get("async"):
                 script[key] = ent
         if dims["autoretry"] and rng.random() < 0.5:
